@@ -7,14 +7,18 @@ import multilib as M
 PID = "C12"
 LEVEL = "proof"
 NEED_RELEASE = True
-COQ_TARGETS = ["Props/C12.vo", "Props/C12_fp.vo", "Props/C12_events.vo"]
-PROPS_FILES = ["C12", "C12_fp", "C12_events"]
+COQ_TARGETS = ["Props/C12.vo", "Props/C12_fp.vo", "Props/C12_events.vo", "Props/C12_fl.vo"]
+PROPS_FILES = ["C12", "C12_fp", "C12_events", "C12_fl"]
 THEOREMS = ["C12_unit_disc_accepts", "C12_unit_disc_rejects", "C12_unit_ball_accepts", "C12_unit_ball_rejects", "C12_unit_sphere_accepts", "C12_unit_sphere_rejects", "C12_unit_circle_accepts", "C12_unit_circle_rejects", "C12_fingerprints", "C12_circle_norm", "C12_sphere_norm", "C12_disc_ball_norm", "C12_circle_angle_doubling", "C12_sphere_z_linear",
-            "C12_u_pm1_range", "C12_unit_circle_real", "C12_circle_origin_rejected", "C12_unit_circle_norm", "C12_unit_sphere_norm", "C12_unit_disc_norm", "C12_unit_ball_norm"]
+            "C12_u_pm1_range", "C12_unit_circle_real", "C12_circle_origin_rejected", "C12_unit_circle_norm", "C12_unit_sphere_norm", "C12_unit_disc_norm", "C12_unit_ball_norm",
+            "C12_accept_fl_def", "C12_disc_accept_fl_norm", "C12_ball_accept_fl_norm", "C12_disc_sum_fl_value"]
 TRUSTED_BASE = [
     "Coq 8.16.1 kernel; stdlib real axioms; Proofs/MultiProofs.v: norm identities of von Neumann's circle and Marsaglia's sphere transforms, "
     "angle doubling, z = 1 - 2s, lifted by induction over the rejection loop to every result of the models coq/Model/Multi.v; the uniform draw "
     "on [-1,1) is exact (k*2^-51 - 1)",
+    "Props/C12_fl.v (Flocq BinarySingleNaN; Proofs/UnitNormFl.v): the IEEE acceptance tests x1*x1 + x2*x2 [+ x3*x3] <= 1 of UnitDisc / UnitBall are "
+    "overflow-free on [-1,1] coordinates and an accepted candidate has real squared norm <= 1 + 4u resp. 1 + 6u (u = 2^-prec), any binary format "
+    "with prec >= 3, emax >= prec + 3; Flocq's model of IEEE-754 arithmetic is trusted to describe the hardware + and *",
     "models tied to the code by pathwise correspondence on identical RNG words (rejection decisions, word counts, component enclosures)",
     "uniformity itself (uniform in the square restricted to the disc is uniform there; r^2 uniform => z uniform; doubling a uniform angle) is "
     "classical geometry not formalised here (B-class, DESIGN.md §8)",
